@@ -163,14 +163,14 @@ func runCluster(secs int) string {
 				moves++
 			}
 		}
-		time.Sleep(700 * time.Millisecond)
+		time.Sleep(250 * time.Millisecond)
 	}
 	close(stop)
 	wg.Wait()
 	sort.Slice(res, func(i, j int) bool { return res[i].finish < res[j].finish })
-	// the monitor is quadratic: keep at most ~6000 grants, evenly thinned
-	if len(res) > 6000 {
-		step := float64(len(res)) / 6000
+	// the monitor is quadratic (0.4 s for 6000 grants): keep at most 40000 grants, evenly thinned
+	if len(res) > 40000 {
+		step := float64(len(res)) / 40000
 		var thin []grant
 		for x := 0.0; int(x) < len(res); x += step {
 			thin = append(thin, res[int(x)])
